@@ -180,6 +180,12 @@ class Grammar:
 
     def _sym_index(self, r, node):
         """yyvsp[k] / yylsp[k] -> 1-based symbol index in (host) rule, else None."""
+        if node.get("k") in ("paren", "cast") and isinstance(node.get("e"), dict):
+            return self._sym_index(r, node["e"])
+        if node.get("k") == "ref" and node.get("name") == "yyloc":
+            # @$: bison computes it before the action runs (YYLLOC_DEFAULT): the span @1..@n of the rule, or for an
+            # empty rule the empty range at the end of @0.  Encoded as the pair through `which`.
+            return ("@$",)
         if node.get("k") != "sub":
             return None
         b = node["base"]
@@ -211,6 +217,9 @@ class Grammar:
                 if (c.get("recv") or {}).get("name") != "ch":
                     raise AnalysisBroken("CALL receiver is not ch in rule %r" % r)
                 first, last = self._sym_index(r, args[fi]), self._sym_index(r, args[li])
+                n_rhs = self.rhs_len_for_refs(r)
+                first = (1 if n_rhs else 0) if first == ("@$",) else first
+                last = n_rhs if last == ("@$",) else last
                 r.calls.append(Call(r, first, last, c["name"], c.get("args", []), c, c.get("l"), order))
                 order += 1
                 continue
@@ -223,6 +232,11 @@ class Grammar:
             sp = ss[0]
             first = self._sym_index(r, sp["args"][0].get("base", {}))
             last = self._sym_index(r, sp["args"][1].get("base", {}))
+            n_rhs = self.rhs_len_for_refs(r)
+            if first == ("@$",):
+                first = 1 if n_rhs else 0
+            if last == ("@$",):
+                last = n_rhs
             inner = [c for c in ss[1]["body"].get("s", []) if c.get("k") == "call"]
             if len(inner) != 1:
                 raise AnalysisBroken("CALL with %d calls in rule %r" % (len(inner), r))
